@@ -15,6 +15,10 @@ Corners:
                   name/value/literal survive the trip (('EEnumLiteral','literal') is a signature feature), and instance
                   documents holding such literals (single, many, default value literal) saved against the original load
                   against the reloaded metamodel -- and the other way round -- into the model that was saved.
+      'nsprefix': packages (sub-packages, further root packages) that declare the SAME nsPrefix with different nsURIs and
+                  hold classes of the same name; instances of the further packages' classes in polymorphic containment
+                  slots (xsi:type written) and as roots; documents cross-loaded original->reloaded, original->original
+                  copy, reloaded->original, every object's class compared by its qualified package path.
   correspondence (ties coq/Gen/EcoreMM.v, i.e. the translator's reading of pyecore/ecore.py, to the running library):
       (a) every row of the generated table against the live reflection of pyecore.ecore (names, kinds, types, bounds,
           containment, derived/transient, effective eOpposite),
@@ -2063,7 +2067,8 @@ def cross_load(src_mm, dst_mm, seed, tag, tmp, fails, stats=None, nper=2):
         a, b = tag.split('-to-')
         fails.append({'construct': f'cross-load-{tag}',
                       'what': f'model saved against the {a} metamodel, loaded against the {b} one, is not the model '
-                              f'that was saved: ' + _first_dump_diff(want, got)})
+                              f'that was saved: '
+                              + (f'load raises {got[1]}' if isinstance(got, tuple) else _first_dump_diff(want, got))})
 
 
 def prefix_case(desc, inst_seed, tmp, stats=None):
@@ -2358,6 +2363,7 @@ def run(ctx, out):
         'edit-and-resave histories keep names unique (every new name is fresh), remove only classifiers nothing points '
         'to, and do not take a renamed feature out of its class (that raises today: the Python mirror of a dynamic '
         'class keeps a renamed feature under its old name -- an edit-API defect outside C10, reported)',
+        'equal-nsPrefix metamodels: the packages sharing a prefix always differ in nsURI (the registry key)',
         'enumeration display strings never read as the name or display string of another literal of the same '
         'enumeration (unambiguous under name-based and display-string-based lookup alike)',
         'generated metamodels: unique names per package across kinds and per class hierarchy across features and '
